@@ -201,6 +201,12 @@ class History:
             if not os.path.exists(job.events):
                 raise ToolError("no event file written (hooks not compiled in?): " + " ".join(job.cmd()))
             job.ev_digest = sha_file(job.events)
+            if job.ev_digest not in self.event_files:
+                # one back-end process per build: exactly one work list starts (push with len 0 as first record, one pop idx 0)
+                txt = open(job.events).read()
+                starts = txt.count('"ev":"pop","key":') and len(re.findall(r'"ev":"pop","key":\d+,"idx":0}', txt))
+                if starts != 1 or not re.match(r'\{"ev":"push","key":\d+,"fct":\d+,"known":false,"len":0}', txt):
+                    raise ToolError("event file %s was not written by exactly one back-end run (%s work-list starts)" % (job.events, starts))
             self.add(req, "events", job.env_tag, job.ev_digest)
             ctx.add("event_files")
             if job.ev_digest in self.event_files:
@@ -733,6 +739,8 @@ def run(ctx):
 
     # 2. histories
     progs = choose_programs(ctx)
+    if os.environ.get("VERIF_C15_PART") == "bootstrap":     # development aid for mutant trials: a minimal history + the bootstrap
+        progs = [p for p in progs if p["name"] == "generic_symbols"]
     ctx.extra["programs"] = [{"name": p["name"], "bytes": p["bytes"]} for p in progs]
     reqs = []
     link_progs = [p["name"] for p in progs if p["name"].startswith("gen")][:1] + ["generic_symbols"]
